@@ -311,6 +311,11 @@ static void gen_conv(struct scen *sc, struct rng *r, long c)
 	}
 	if (c % 11 == 5)
 		sc->no_data = true, add_event(&sc->cfg, (time_t)(1 + rndn(r, (uint32_t)span + 1)), 5, 0);
+	if (c % 13 == 6) {
+		/* one answer arrives a byte at a time, each byte well within any single receive timeout */
+		sc->cfg.slow_query = 1 + (long)rndn(r, 3);
+		sc->cfg.slow_gap = 20 + rndn(r, 39);
+	}
 	if (c % 9 == 4) {
 		/* an unsolicited PDU that arrives slowly around the time the first refresh deadline passes, then new data */
 		time_t t = (time_t)sc->cfg.refresh > 3 ? (time_t)sc->cfg.refresh - 1 - (time_t)rndn(r, 3) : 1;
@@ -457,8 +462,10 @@ static void gen_expiry(struct scen *sc, struct rng *r, long c)
 	time_t dur = dsel < 5 ? (time_t)E + DUR[dsel] : dsel == 5 ? (time_t)E + R : (time_t)E * 3;
 
 	sc->cfg.outage_dur_class = dsel;
-	sc->cfg.outage_mode = (int)((c / 7) % 7);
+	sc->cfg.outage_mode = (int)((c / 7) % 8);
 	sc->cfg.outage_from = 1 + rndn(r, 50);
+	if (c % 6 == 2)
+		sc->cfg.outage_from = 0; /* down from the very start: the client has no session yet */
 	sc->cfg.outage_until = sc->cfg.outage_from + dur + rndn(r, 3);
 	/* data changes during the outage so that catching up afterwards is real */
 	add_event(&sc->cfg, sc->cfg.outage_from + 5, 1, 3);
